@@ -224,6 +224,15 @@ func main() {
 	// the merged label owns the first and the last entry of SBIndices
 	addChain(jcase{Kind: "chain", G: g2, Paints: []blk.Paint{blk.Fill(2), blk.Box([6]int{1, 0, 0, 16, 16, 16}, 1), blk.Box([6]int{15, 15, 15, 16, 16, 16}, 2), blk.Box([6]int{14, 15, 15, 15, 16, 16}, 3)},
 		Ops: []jop{{T: "merge", Target: 1, Merged: []uint64{2}}, {T: "replace", Target: 1, New: 6}}})
+	// replace onto a label that is already present (two slots hold it), then replace that label;
+	// replace label 0 after a merge (the merged slot is a dead 0 ahead of the real label 0);
+	// replace the merged target after a merge with the target absent
+	addChain(jcase{Kind: "chain", G: g2, Paints: []blk.Paint{blk.Fill(0), blk.Cyc([6]int{0, 0, 0, 16, 16, 8}, 1, 1, 3)},
+		Ops: []jop{{T: "replace", Target: 1, New: 2}, {T: "replace", Target: 2, New: 7}, {T: "replace", Target: 7, New: 3}, {T: "replace", Target: 3, New: 0}, {T: "replace", Target: 0, New: 4}}})
+	addChain(jcase{Kind: "chain", G: g2, Paints: []blk.Paint{blk.Fill(0), blk.Cyc([6]int{0, 0, 0, 16, 8, 16}, 1, 1, 3)},
+		Ops: []jop{{T: "merge", Target: 3, Merged: []uint64{1}}, {T: "replace", Target: 0, New: 9}, {T: "replace", Target: 3, New: 2}, {T: "replace", Target: 2, New: 5}}})
+	addChain(jcase{Kind: "chain", G: g2, Paints: []blk.Paint{blk.Fill(4), blk.Cyc([6]int{8, 0, 0, 16, 16, 16}, 1, 1, 3)},
+		Ops: []jop{{T: "merge", Target: 60, Merged: []uint64{1, 2}}, {T: "replace", Target: 60, New: 3}, {T: "replace", Target: 3, New: 4}, {T: "replace", Target: 4, New: 0}, {T: "replace", Target: 0, New: 8}}})
 	// solid block through every table-level operation
 	addChain(jcase{Kind: "chain", G: g2, Paints: []blk.Paint{blk.Fill(4)}, Ops: []jop{
 		{T: "replace", Target: 4, New: 8}, {T: "merge", Target: 2, Merged: []uint64{8}}, {T: "replacemany", Map: [][2]uint64{{2, 3}}},
@@ -285,8 +294,22 @@ func main() {
 			return rs
 		}
 		var ops []jop
-		nops := 2 + rng.Intn(3)
+		nops := 2 + rng.Intn(4)
+		var multi []uint64 // labels known to sit in more than one table slot after the ops so far
+		merged := false
 		for j := 0; j < nops; j++ {
+			if len(multi) > 0 && rng.Chance(0.6) {
+				// replace a label that occupies several slots (outputs of earlier operations)
+				t := multi[rng.Intn(len(multi))]
+				nl := uint64(rng.Pick(0, 9, 300+j, int(pal[rng.Intn(npal)])))
+				ops = append(ops, jop{T: "replace", Target: t, New: nl})
+				multi = append(multi, nl)
+				continue
+			}
+			if merged && rng.Chance(0.4) {
+				ops = append(ops, jop{T: "replace", Target: 0, New: uint64(900 + j)})
+				continue
+			}
 			switch rng.Intn(7) {
 			case 0, 1:
 				m := []uint64{pickLabel()}
@@ -304,8 +327,12 @@ func main() {
 					t = uint64(200 + j)
 				}
 				ops = append(ops, jop{T: "merge", Target: t, Merged: m})
+				merged = true
+				multi = append(multi, t)
 			case 2, 3:
-				ops = append(ops, jop{T: "replace", Target: pickLabel(), New: uint64(rng.Pick(0, 9, 300+j, int(pal[0])))})
+				nl := uint64(rng.Pick(0, 9, 300+j, int(pal[0]), int(pal[rng.Intn(npal)])))
+				ops = append(ops, jop{T: "replace", Target: pickLabel(), New: nl})
+				multi = append(multi, nl) // the new label may now sit in two slots
 			case 4:
 				a, b := pickLabel(), pickLabel()
 				mp := [][2]uint64{{a, b}}
